@@ -232,7 +232,8 @@ def main(argv=None):
     ctx = mp.get_context('spawn')
     real_err.write('[%s] tier=%s seed=%d shards=%d jobs=%d repo=%s\n' % (
         pid, a.tier, seed, n, jobs, REPO))
-    pool = ctx.Pool(jobs, initializer=_winit, initargs=(modname, True))
+    pool = ctx.Pool(jobs, initializer=_winit, initargs=(modname, True),
+                    maxtasksperchild=1 if getattr(mod, 'FRESH_WORKERS', False) else None)
     try:
         it = pool.imap_unordered(
             _wrun, [(i, shards[i], a.tier) for i in order], chunksize=1)
@@ -367,6 +368,11 @@ def main(argv=None):
                        pid, 'FAIL' if status else 'ok', merged.evals,
                        merged.nontrivial, len(merged.outcomes), len(unlisted),
                        len(known), exhaustive, wall))
+    if hasattr(mod, 'cleanup'):
+        try:
+            mod.cleanup()
+        except Exception:     # noqa
+            pass
     real_out.flush()
     real_err.flush()
     os._exit(status)
